@@ -9,6 +9,7 @@ import (
 	"io"
 	"os"
 	"sync"
+	"sync/atomic"
 
 	"github.com/rs/zerolog"
 	zerologger "github.com/rs/zerolog/log"
@@ -33,6 +34,26 @@ func Init() {
 func TraceLoggingToDiscard() {
 	zerologger.Logger = zerolog.New(io.Discard)
 	zerolog.SetGlobalLevel(zerolog.TraceLevel)
+}
+
+var logToggle atomic.Int64
+
+// AlternateLogging is called whenever a new set of services is about to be assembled: successive sets alternate
+// between disabled logging and trace-level logging into a discard sink (the services capture their level when they
+// are constructed), starting from the mode the process was started with (VERIF_LOG, which itself alternates with
+// check number and seed).  It returns the mode chosen.
+func AlternateLogging() string {
+	n := logToggle.Add(1)
+	trace := n%2 == 0
+	if os.Getenv("VERIF_LOG") == "trace" {
+		trace = !trace
+	}
+	if trace {
+		TraceLoggingToDiscard()
+		return "trace"
+	}
+	zerolog.SetGlobalLevel(zerolog.Disabled)
+	return "off"
 }
 
 // Key is a validator key the harness knows everything about.
